@@ -71,7 +71,7 @@ CLAIMS = {
             'so x -> a·x (a > 0) multiplies the output by a^degree and leaves every branch unchanged in real arithmetic (bit-exactly for a a power of two).',
             'Trusted: typing rules in sfa/e_typing.py (float representation changes keep the degree; rounding/conversion to integers needs degree 0), degree table from the property. One reviewed exception: Vst std=0 -> x (the statement\'s own degenerate case). '
             'Offset invariance (x -> x + b) is decided for HLNormalizer, Vsct, NoiseEliminationTechnology and EhlersFisherTransform for enumerated N (shift coefficients: non-linear operations and comparisons only on operands whose shifts cancel); for CorrelationTrendIndicator it is decided as a consequence of the verified structure (centred Pearson ratio of whole-window sums with n = number of summed values; known finding: n is the configured window length, so the clause fails before the window is full). '
-            'Negation clause: decided by parity typing (ODD/EVEN/zero; orderings only between even quantities) for Vsct, Vst, CorrelationTrendIndicator, TrendFlex, ReFlex; NOT decided for the views with mirrored branches (Min/-Max, Rsi, MyRSI, NET, HLNormalizer).',
+            'Negation clause: decided by parity typing (ODD/EVEN/zero; orderings only between even quantities) for Vsct, Vst, CorrelationTrendIndicator, TrendFlex, ReFlex; decided from verified structure for NoiseEliminationTechnology (antisymmetric pair sum) and Min <-> -Max (extrema of the same exact window); NOT decided for Rsi, MyRSI, HLNormalizer.',
             'DESIGN.md §5 C12', 'E5'),
     'C10': ('other', 'static analysis: linearity type inference (ZERO/COEF/LIN/TOP) over the value graph + data-dependent-branch census + abstract interpretation in a linear-form domain (steady-state DC gain; forms from the initial state with one symbol per input)',
             'Linearity clause proved over the reals for the 8 linear views: all floats are linear forms with input-independent coefficients, no affine term, '
